@@ -54,15 +54,24 @@ Theorem C07_accept_iff : forall N session S now m,
 Proof. exact spec_accept_iff. Qed.
 Print Assumptions C07_accept_iff.
 
-(* The creation time in `conds` is MessageID.Time() (both parts regenerated from the source).
-   It IS the specification's reading of the id -- id / 2^32 seconds -- rounded down to a
-   nanosecond, for every id (scaled by 2^32 to stay in Z).
-   (Before fix ad4102cfc the low word was read as int32 nanoseconds, off by -2.65 .. +1.65 s:
-   a message 301.5 s old, (T-302)<<32 | 0x7FFFFFFD, was accepted.) *)
+(* The creation time in `conds` is mtproto.messageIDCreated (read.go; both parts regenerated
+   from the source).  It IS the specification's reading of the id -- id / 2^32 seconds --
+   rounded down to a nanosecond, for every id (scaled by 2^32 to stay in Z).
+   (Before fixes ad4102cfc / bf52a6466 the window used MessageID.Time(), which reads the low
+   word as int32 nanoseconds, off by -2.65 .. +1.65 s: a message 301.5 s old,
+   (T-302)<<32 | 0x7FFFFFFD, was accepted.) *)
 Theorem C07_time_decoding_is_spec : forall id,
   id_time_lib id * 4294967296 <= id_time_spec_scaled id < (id_time_lib id + 1) * 4294967296.
 Proof. exact id_time_lib_is_spec. Qed.
 Print Assumptions C07_time_decoding_is_spec.
+
+(* Remark: proto.MessageID.Time() itself (display only: String(), log lines) still reads the low
+   word as int32 nanoseconds; its distance from the specification's reading is bounded. *)
+Theorem C07_time_decoding_distance : forall id,
+  let d := id_time_display id * 4294967296 - id_time_spec_scaled id in
+  - 2650000000 * 4294967296 < d < 1650000000 * 4294967296.
+Proof. exact id_time_display_vs_spec. Qed.
+Print Assumptions C07_time_decoding_distance.
 
 (* regression witnesses of the repaired defects, on the regenerated constants / functions *)
 Theorem C07_replay_of_old_id_rejected : consume_run (buf_init 100) [100; 200; 100] = [true; true; false].
